@@ -2,7 +2,8 @@
    Property theorems only.  Models: theories/OmenLevel.v (trainer tables after
    smoothing, find_omen_level, the IP/EP/CP/LN writers, OmenScorer's readers and
    parse, the guesser's reader view) and theories/OmenSpec.v (what the Markov
-   generator must emit per level).  Proofs: theories/OmenLevelProofs.v. *)
+   generator must emit per level).  Proofs: theories/OmenLevelProofs.v; the translator
+   tie at the end: theories/OmenRt.v, gen/OmenLevel_gen.v, theories/OmenLevelGenProofs.v. *)
 From Coq Require Import List Arith NArith ZArith.
 From Pcfg Require Import OmenSpec OmenLevel OmenLevelProofs.
 From PcfgGen Require Import Consts_gen.
